@@ -480,19 +480,25 @@ PROPS = {
         "assumptions": ["as C01"],
     },
     "C11": {
-        "modules": ["XetProps.C11", "XetProps.C11Manager"],
+        "modules": ["XetProps.C11", "XetProps.C11Manager", "XetProps.C11Repeat"],
         "theorems": ["Xet.Dedup.C11_recorded", "Xet.Dedup.C11_recorded_always", "Xet.Dedup.C11_chunks_recorded",
                      "Xet.Shard.C11_lookup_complete", "Xet.Shard.C11_lookup_complete_register", "Xet.Shard.C11_flush_finds",
                      "Xet.Shard.C11_flush_mem_empty",
-                     "Xet.Dedup.C11_defrag_warmup", "Xet.Dedup.C11_defrag_long_run_accepted", "Xet.Dedup.C11_defrag_short_run_rejected"],
-        "suites": ["session", "manager", "session_conc"],
+                     "Xet.Dedup.C11_defrag_warmup", "Xet.Dedup.C11_defrag_long_run_accepted", "Xet.Dedup.C11_defrag_short_run_rejected",
+                     "Xet.Dedup.C11_repeat_free", "Xet.Dedup.C11_repeat_free_real_estimator", "Xet.Dedup.C11_repeat_free_no_defrag",
+                     "Xet.Dedup.C11_repeat_needs_answers"],
+        "suites": ["session", "manager", "session_conc", "deduper"],
         "level_text": "For every history, legal or not: every xorb handed to the store (cut mid-file or from the session aggregator, incl. the final "
                       "one) has its CAS info registered with the session shard, and every chunk of it is in that info. Lookup completeness of ShardFileManager "
                       "is proved: a chunk at offset <= u16::MAX of a block of a serialized well-formed shard registered under a new name below the "
                       "index cap is found in every later state (n >= 1, the block and position named, truthful), and after add_cas_block + flush "
                       "every chunk of the block is found - under explicit side conditions, each shown necessary by an example. The end-to-end "
                       "half (a later session re-uploading the content transfers no new chunk bytes) composes these through the real session code "
-                      "and is checked on real multi-session stores (partial: that composition is a monitor, not a theorem). The one way the code stores "
+                      "is proved on the client side (C11_repeat_free: for every number of files, interleaving and partition into process_chunks calls, if "
+                      "every deduped_blocks slot the deduper consults holds an answer and the defrag procedure accepts those runs - for the real estimator: "
+                      "runs of >= 8 chunks - the finalized session hands no xorb to the store and reports new_bytes = new_chunks = 0; an unanswered slot is "
+                      "stored again, by example); that the real lookups answer every slot is the manager half above composed through the real session code, "
+                      "checked on real multi-session stores (partial: that last composition is a monitor, not a theorem). The one way the code stores "
                       "a FOUND run again, fragmentation prevention, is delimited by theorems: nothing is rejected before 128 ranges were recorded, a run of "
                       ">= 8 chunks is never rejected, a short run after 128 one-chunk ranges is (the recorded finding of C11).",
         "design_ref": "DESIGN.md section 4, C01..C11",
